@@ -22,6 +22,14 @@ CHECKS = {
              "horizons x all probes, plus random long interleavings, against the extracted model and spec.",
         design="7/C18", technique="Coq proof (induction on fuel/list) + exhaustive and random correspondence run",
         note="Sequence numbers >= 1 and < 2^64; pushes increasing. " + NOTE_COMMON),
+    "C19": dict(
+        text="Theorems (Coq, all records / all byte strings): unmarshal(marshal r) = r for every well-formed record; the "
+             "byte layout (le64 sequence with the i-th byte = (n/256^i) mod 256, then tx id, content id, raw key; length 40+|key|); "
+             "decode is total, rejects exactly strings shorter than 40 bytes, and marshal(unmarshal bs) = bs; canonical textual "
+             "ids round-trip. Tie: real marshalFile/unmarshalFile and the repository's Set/GetAll over a recording provider are "
+             "compared byte-for-byte with the extracted model on boundary + random records, arbitrary byte strings, golden vectors.",
+        design="7/C19", technique="Coq proof (algebraic round-trip, layout lemma) + byte-level correspondence run",
+        note="Bytes modelled as N < 256; only the canonical 36-character UUID text form is modelled. " + NOTE_COMMON),
 }
 
 NOT_YET = {}
